@@ -150,7 +150,7 @@ def tyName : Ty → String
 def limitOf (all : List Member) (k : MKind) : Option Int :=
   match k with
   | .limited s c => some (min (c : Int) (sizerMax s all))
-  | .dyn s => some (sizerMax s all)
+  | .dyn s sh => some (sizerMax s all - (sh : Int))
   | _ => Option.none
 
 def overLimit (all : List Member) (k : MKind) (n : Nat) : Bool :=
@@ -186,7 +186,7 @@ def setMember (all : List Member) (m : Member) (old : Val) (a : Arg) : M Val :=
         (match k with
          | .fixed c => if b.length > c then .error .prophy else .ok (.bytes (b ++ zeros (c - b.length)))
          | .limited s c => if b.length > c ∨ (b.length : Int) > sizerMax s all then .error .prophy else .ok (.bytes b)
-         | .dyn s => if (b.length : Int) > sizerMax s all then .error .prophy else .ok (.bytes b)
+         | .dyn s sh => if (b.length : Int) > sizerMax s all - (sh : Int) then .error .prophy else .ok (.bytes b)
          | _ => .ok (.bytes b))
       | .byte, _ => .error .prophy                     -- not a bytes
       | _, _ => let _ := old; .error .prophy           -- assignment to array field not allowed
